@@ -40,6 +40,7 @@ GEN = {
     "errexit": ("Gen_Semantics_errexit.cfg", 2),
     "errors": ("Gen_Semantics_errors.cfg", 2),
     "syn": ("Gen_Semantics_syn.cfg", 2),
+    "errors5": ("Gen_Semantics_errors5.cfg", 2),
     # TLC simulation mode (random walks of the grow phase) for sizes beyond the exhaustive bound
     "sim12": ("Gen_Semantics_sim12.cfg", 2),
     "simerr": ("Gen_Semantics_simerr.cfg", 2),
@@ -61,8 +62,8 @@ PLAN = {
                   "gen": [("errexit", 4), ("errors", 4), ("syn", 4)],
                   "variants": 2, "random": (600, 40, "c10"), "real": ("errors", 3, 8)},
         "thorough": {"laws": [("MC_Semantics_cov.cfg", None), ("MC_Semantics_laws_all.cfg", None), ("MC_Semantics_laws_errors.cfg", None), ("MC_Semantics_laws_errexit.cfg", None)],
-                     "gen": [("errexit", 5), ("errors", 5), ("syn", 6), ("simerr", 10)],
-                     "variants": 3, "random": (20000, 40, "c10"), "real": ("errors", 4, 40)},
+                     "gen": [("errexit", 5), ("errors", 4), ("errors5", 5), ("syn", 6), ("simerr", 10)],
+                     "variants": 2, "random": (20000, 40, "c10"), "real": ("errors", 4, 40)},
     },
 }
 
